@@ -52,6 +52,7 @@ HASHED_VARS = {'c': ['SCCACHE_C_CUSTOM_CACHE_BUSTER', 'SDKROOT'], 'rustc': ['CAR
 PP_ALLOW = ['SCCACHE_C_CUSTOM_CACHE_BUSTER', 'CPATH', 'C_INCLUDE_PATH', 'CPLUS_INCLUDE_PATH', 'OBJC_INCLUDE_PATH',
             'OBJCPLUS_INCLUDE_PATH']          # preprocessor_cache.rs CACHED_ENV_VARS (used for the abstract pp key only)
 PROFILE_FLAGS = ['-ftest-coverage', '--coverage', '-fprofile-generate']
+XFILES = ['x0.cfg', 'x1.cfg', 'x2.cfg', 'x3.cfg']
 RUST_EMITS = ['link', 'dep-info,link', 'metadata', 'dep-info,metadata', 'dep-info,metadata,link']   # cargo build / cargo check shapes
 NUNITS = 3
 
@@ -85,6 +86,7 @@ def gen_plan(rng, tool, pp, cap, nreq, idle_timeout=0):
     reqs = []                 # earlier compile steps (dicts)
     outs = []                 # output paths produced so far
     nout = [0]
+    nburst = [0]
 
     def fresh_out():
         nout[0] += 1
@@ -107,6 +109,9 @@ def gen_plan(rng, tool, pp, cap, nreq, idle_timeout=0):
                                      ['-g', '-gsplit-dwarf'], ['-g', '-gsplit-dwarf', '-ftest-coverage']]),
                 'md': rng.chance(1, 4), 'md_first': rng.chance(1, 2),
                 'dia': ('d%d.dia' % rng.below(3)) if (tool == 'clang' and rng.chance(1, 4)) else '',
+                # extra hash files: SCCACHE_EXTRAFILES (ordered list) and, for clang, two -fsanitize-blacklist= options
+                'xfiles': rng.shuffle(XFILES)[:rng.range(2, 4)] if rng.chance(1, 5) else [],
+                'sbl': rng.shuffle(XFILES)[:2] if (tool == 'clang' and rng.chance(1, 8)) else [],
                 'out': fresh_out(), 'env': [], 'bad': bad()}
 
     def vary(base):
@@ -180,6 +185,27 @@ def gen_plan(rng, tool, pp, cap, nreq, idle_timeout=0):
         reqs.append(c)
         outs.append(c['out'])
         n += 1
+        if tool != 'rustc' and not c['bad'] and len(c.get('xfiles', [])) + len(c.get('sbl', [])) >= 2 and nburst[0] < 2:
+            # several extra hash files: the identical request, many times (a key that depends on anything chosen per
+            # request, e.g. the iteration order of a hash set, only fails now and then)
+            nburst[0] += 1
+            for _ in range(6):
+                steps.append({'op': 'delete_some', 'req': len(reqs), 'mask': rng.choice([0, 1, 2, 3])})
+                steps.append(json.loads(json.dumps(c)))
+                reqs.append(steps[-1])
+    if cap == HUGE and reqs and rng.chance(2, 3):
+        # the cache directory as a tar / CI-cache restore or a coarse-timestamp file system leaves it: entry files share
+        # their mtimes; then every stored request once more
+        steps.append({'op': 'flatten_mtimes', 'values': rng.choice([1, 1, 2, 3])})
+        seen = set()
+        for j in rng.shuffle(list(range(len(reqs)))):
+            c = reqs[j]
+            k = json.dumps({x: c[x] for x in c if x not in ('out', 'env')}, sort_keys=True)
+            if c['bad'] or k in seen or len(seen) >= 6:
+                continue
+            seen.add(k)
+            steps.append({'op': 'delete_some', 'req': j + 1, 'mask': rng.choice([0, 1, 2, 3])})
+            steps.append(json.loads(json.dumps(c)))
     return {'tool': tool, 'pp': pp, 'cap': cap, 'idle_timeout': idle_timeout, 'steps': steps}
 
 
@@ -280,6 +306,8 @@ class Runner:
             os.makedirs(os.path.join(self.ws, 'lp2'))
         else:
             self.put('common.h', '#define COMMON 3\n')
+            for i, f in enumerate(XFILES):
+                self.put(f, '# extra hash file %d\n' % i)
 
     def put(self, rel, text):
         p = os.path.join(self.ws, rel)
@@ -386,6 +414,7 @@ class Runner:
             return a
         md = ['-MD', '-MF', c['out'] + '.d'] if c.get('md') else []
         dia = ['--serialize-diagnostics', c['dia']] if c.get('dia') else []
+        dia = ['-fsanitize-blacklist=' + f for f in c.get('sbl', [])] + dia
         if c.get('md_first'):       # -MD before the -D options: a later preprocessor argument must not re-enable pp-cache mode
             return md + [c['opt']] + self.defs(c) + c['extra'] + dia + ['-c', 'u%d.c' % u, '-o', c['out']]
         return [c['opt']] + self.defs(c) + c['extra'] + dia + md + ['-c', 'u%d.c' % u, '-o', c['out']]
@@ -428,6 +457,19 @@ class Runner:
         if any(x in PROFILE_FLAGS for x in c['extra']) or '-gsplit-dwarf' in c['extra']:
             return os.path.join(self.ws, c['out'])
         return ''
+
+    @staticmethod
+    def extra_files(c):
+        return list(c.get('sbl', [])) + list(c.get('xfiles', []))
+
+    def extrafiles_var(self, c):
+        return ':'.join(os.path.join(self.ws, f) for f in c.get('xfiles', []))
+
+    def client_env(self, c):
+        e = [(k, v) for k, v in c['env']]
+        if c.get('xfiles'):
+            e.append(('SCCACHE_EXTRAFILES', self.extrafiles_var(c)))
+        return e
 
     def listing(self):
         """Every file of the client's directory with a signature that changes when the file is rewritten."""
@@ -474,6 +516,7 @@ class Runner:
         # -ftest-coverage sets `profile_generate`: the absolute object path then enters the key (model: AProfile)
         args = [['h', c['opt'].encode()]] + [['u', d.encode()] for d in defs] + \
                [['p' if x in PROFILE_FLAGS else 'sd' if x == '-gsplit-dwarf' else 'h', x.encode()] for x in c['extra']]
+        args += [['h', ('-fsanitize-blacklist=' + f).encode()] for f in c.get('sbl', [])]
         if c.get('dia'):            # hashed (common) arguments; the file is an output of the request
             args += [['h', b'--serialize-diagnostics'], ['h', c['dia'].encode()]]
         if c.get('md'):
@@ -485,11 +528,16 @@ class Runner:
         #  -MD is "too hard" for that mode, so such a request is preprocessed with -P even when the mode is on)
         markers = b'markers' if (self.plan['pp'] and not c.get('md')) else b'-P'
         inputs = [h64(b'pp', markers, *(srcs + [d.encode() for d in defs]))]
+        # the extra hash files: an ORDERED list of digests determined by the request (option files, then SCCACHE_EXTRAFILES)
+        xdig = [self.file_digest(f) for f in self.extra_files(c)]
+        inputs += xdig
+        if c.get('xfiles'):
+            env = env + [('SCCACHE_EXTRAFILES', self.extrafiles_var(c))]      # itself not an allow-listed variable
         ppkey = []
         if self.plan['pp'] and not c.get('md'):          # -MD is "too hard" for preprocessor-cache mode
             henv = sorted((k, v) for k, v in env if k in PP_ALLOW)
             ppkey = [h64(b'ppkey', c['opt'], json.dumps(defs), json.dumps(c['extra']), c.get('dia', ''), json.dumps(henv), self.keyed_out(c),
-                         'u%d.c' % u, srcs[0]).to_bytes(8, 'big')]
+                         json.dumps(c.get('sbl', [])), json.dumps(xdig), 'u%d.c' % u, srcs[0]).to_bytes(8, 'big')]
         comp = h64(open(self.cc, 'rb').read())
         return ['req', tag, 'c', comp, args, [[k.encode(), v.encode()] for k, v in env], [], self.ws.encode(),
                 inputs, [[r.encode(), p.encode(), o] for r, p, o in self.outputs(c)], ppkey, oracle]
@@ -506,6 +554,7 @@ class Runner:
                     tuple(henv), self.ws, self.file_digest('l%d.rs' % u))
         henv = sorted((k, v) for k, v in c['env'] if k in C_ALLOW)
         return ('c', u, c['opt'], tuple(self.defs(c)), tuple(c['extra']), bool(c.get('md')), bool(c.get('md') and c.get('md_first')), c.get('dia', ''), tuple(henv), self.keyed_out(c),
+                tuple((f, self.file_digest(f)) for f in self.extra_files(c)),
                 tuple(self.file_digest(f) for f in ('u%d.c' % u, 'u%d.h' % u, 'common.h')))
 
     def classify_log(self, lines):
@@ -575,6 +624,23 @@ class Runner:
                         events.append(['delete', f.encode()])
                         obs.append({'op': 'delete', 'entries': self.entries()})
                     continue
+                if op == 'flatten_mtimes':
+                    # server stopped; every file below the cache directory gets one of `values` shared whole-second mtimes
+                    rc, _, _ = self.sc(['--stop-server'])
+                    if rc != 0:
+                        kill_servers(self.port)
+                    base = int(time.time()) - 5000
+                    i = 0
+                    for r, ds, names in os.walk(self.cache):
+                        for n in sorted(names):
+                            mt = base + 100 * (i % st['values'])
+                            os.utime(os.path.join(r, n), (mt, mt))
+                            i += 1
+                    self.sc(['--start-server'])
+                    self.server_pid = None
+                    events.append(['restart'])
+                    obs.append({'op': 'restart', 'entries': self.entries(), 'flattened': st['values']})
+                    continue
                 if op == 'restart':
                     rc, _, _ = self.sc(['--stop-server'])
                     if rc != 0:
@@ -606,7 +672,7 @@ class Runner:
                 s0 = self.stats()
                 self.take_log()
                 ls0 = self.listing()
-                rc, out, err = self.sc([self.cc] + self.argv(st), st['env'])
+                rc, out, err = self.sc([self.cc] + self.argv(st), self.client_env(st))
                 ls1 = self.listing()
                 produced[tag] = sorted(f for f in ls1 if ls0.get(f) != ls1[f])
                 lines = self.take_log()
@@ -867,6 +933,8 @@ def extra(rep, known):
                 restarts += 1
                 if ob.get('by'):
                     rep.count('event.restart_by_idle_timeout')
+                if ob.get('flattened'):
+                    rep.count('event.restart_with_shared_mtimes')
             if ob['op'] == 'compile':
                 rep.evaluations += 1
                 info['requests'] += 1
